@@ -94,24 +94,54 @@ def fact(text):
     return _FACTS[text]
 
 
+def code_facts(code):
+    """`c:<codehex>:<texthex>`: the source text of a lambda body (the `codeText` parameter of the model; formatting is C18's)"""
+    import json
+    from pytezos.michelson.format import micheline_to_michelson
+    return f"c:{code.encode().hex()}:{micheline_to_michelson(json.loads(code)).encode().hex() or '-'}"
+
+
+def parse_facts(text):
+    """`p:<texthex>:<codehex>`: what a text parses and normalises to as a lambda body, nothing when that raises (`codeOfText`)"""
+    from pytezos.michelson.micheline import Micheline
+    from pytezos.michelson.parse import michelson_to_micheline
+    try:
+        e = michelson_to_micheline(text)
+        assert isinstance(e, list)
+        return [f"p:{text.encode().hex() or '-'}:{G.code_text(Micheline.match(e).as_micheline_expr()).encode().hex()}"]
+    except Exception:
+        return []
+
+
 def with_facts(line, t):
-    """the protocol line, followed by the facts about every string it mentions (only when the type has a base58 leaf)"""
-    if not any((x[0] == 's' and x[2] in G.B58) or x[0] == 'c' for x in G.subterms(t)):
+    """the protocol line, followed by what the library says about every string / lambda body it mentions (only for types with
+    a base58 leaf, a contract, a ticket or a lambda)"""
+    subs = list(G.subterms(t))
+    b58 = any((x[0] == 's' and x[2] in G.B58) or x[0] in 'ck' for x in subs)
+    lam = any(x[0] == 'f' for x in subs)
+    if not b58 and not lam:
         return line
-    texts = []
+    texts, codes = [], []
     for tok in line.split(' '):
-        if tok.startswith('s') and len(tok) > 1 and tok != 's-' and all(c_ in '0123456789abcdef' for c_ in tok[1:]) and len(tok) % 2 == 1:
+        if len(tok) > 2 and tok[0] in 'sfK' and all(c_ in '0123456789abcdef' for c_ in tok[1:]) and len(tok) % 2 == 1:
             try:
-                texts.append(bytes.fromhex(tok[1:]).decode())
+                (codes if tok[0] == 'f' else texts).append(bytes.fromhex(tok[1:]).decode())
             except ValueError:
                 pass
-    texts.append(ORIGINATED0)
-    seen = []
-    for x in texts:
-        for y in (x, x.partition('%')[0]):
-            if y not in seen and len(y) < 200 and ' ' not in y and '|' not in y:
-                seen.append(y)
-    return line + ' | ' + ' '.join(fact(x) for x in seen)
+    out = []
+    if b58:
+        seen = []
+        for x in texts + [ORIGINATED0]:
+            for y in (x, x.partition('%')[0]):
+                if y not in seen and len(y) < 200 and ' ' not in y and '|' not in y:
+                    seen.append(y)
+        out += [fact(x) for x in seen]
+    if lam:
+        out += [code_facts(x) for x in dict.fromkeys(codes)]
+        if line.startswith('ofpy '):
+            for x in dict.fromkeys(texts):
+                out += parse_facts(x)
+    return line + ' | ' + ' '.join(out)
 
 
 ORIGINATED0 = 'KT1BEqzn5Wx8uJrZNvuS9DVHmLvG9td3fDLi'     # get_originated_address(0), compared with the real function in run()
@@ -340,7 +370,7 @@ def run(ctx):
     ctx.prepare_lean(st)
     ctx.extra['rule'] = ('random types to depth 4 over unit/bool/nat/int/mutez/timestamp/string/bytes, address/key_hash/key/signature/chain_id '
                          '(valid base58 texts of every prefix: tz1-tz4, KT1, sr1 with and without %entrypoint, edpk/sppk/p2pk/BLpk, edsig/spsig/p2sig/sig/BLsig, Net; '
-                         'all-zero / all-0xff / mixed payloads), contract p, bls12_381_fr/g1/g2, never (only where the type stays inhabited), pair, or (incl. enums), option, list, set, '
+                         'all-zero / all-0xff / mixed payloads), contract p, ticket t (t comparable), lambda, bls12_381_fr/g1/g2, never (only where the type stays inhabited), pair, or (incl. enums), option, list, set, '
                          'map, big_map with %field / :type names from a pool that contains duplicates, empty names and generated-looking names '
                          '(`nat_1`, `pair_0`, ...); about a third of the types with a pair / union node get a deliberate former collision shape '
                          '(a declared name equal to the `prim_j` another leaf of the same layout would be generated: declared before or after it, '
@@ -363,7 +393,8 @@ def run(ctx):
         'protocol line carries what the library says about the strings it mentions (C09 owns base58)',
         'decimal arithmetic runs in Python\'s default context (prec=28, ROUND_HALF_EVEN), which the mirror follows',
         'only public keys are sent for `key` (`is_public_key` also passes secret-key texts, on which KeyType.__lt__ raises KeyError)',
-        'lambda and ticket are outside the model',
+        'lambda bodies are opaque to the model: their source text and what a text parses to are parameters (each protocol line carries the '
+        'library\'s own answers; formatting / parsing is C18), the round-trip theorems assume the law CodeLaw',
         'try_unpack=True: the base58 texts `blind_unpack` produces and the object of readable PACKed content are parameters of the model (each '
         'protocol line carries the library\'s own answers); the decision which reading applies is mirrored',
         'ContractEntrypoint.encode/decode is checked on the real code only (composition with C13); the Lean theorem covers ContractData',
@@ -809,6 +840,40 @@ def leaf_forms(rng):
         out.append((ct, rng.choice(P['address']), None))
         out.append((ct, 7, 'reject'))
         out.append((ct, rng.choice(P['key']), 'reject'))
+    # ---- ticket: (ticketer, item, amount) — a tuple or a list of exactly three; the item in the key rendering
+    tk = [y for y in P['address'] if '%' not in y]
+    nat = S('nat')
+    for tt, item, iv in ((('k', G.NOANN, nat), 5, ('I', 5)),
+                         (('k', G.NOANN, ('p', G.NOANN, nat, S('string'))), (1, 'a'), ('P', ('I', 1), ('s', 'a'))),
+                         (('k', G.NOANN, ('p', G.NOANN, G.with_ann(nat, ('a', None)), G.with_ann(nat, ('b', None)))), (1, 2), ('P', ('I', 1), ('I', 2))),
+                         (('k', G.NOANN, ('p', G.NOANN, nat, ('p', G.NOANN, nat, nat))), (1, 2, 3), ('P', ('I', 1), ('P', ('I', 2), ('I', 3)))),
+                         (('k', G.NOANN, ('o', G.NOANN, nat, S('bytes'))), ('bytes_1', b'\x01'), ('R', ('x', b'\x01'))),
+                         (('k', G.NOANN, ('O', G.NOANN, S('key_hash'))), None, ('N',)),
+                         (('k', G.NOANN, S('unit')), None, ('U',))):
+        x = rng.choice(tk)
+        amt = rng.choice([0, 1, 2 ** 70])
+        out.append((tt, (x, item, amt), ('K', x, iv, amt)))
+        out.append((tt, [x, item, amt], ('K', x, iv, amt)))
+        out.append((tt, (x + '%default', item, amt), ('K', x, iv, amt)))
+        out.append((tt, (x + '%mint', item, amt), ('K', x + '%mint', iv, amt)))
+        out.append((tt, (x, item), 'reject'))
+        out.append((tt, (x, item, amt, 0), 'reject'))
+        out.append((tt, (x, item, -1), 'reject'))
+        out.append((tt, (_mangle(x), item, amt), 'reject'))
+        out.append((tt, (rng.choice(P['key']), item, amt), 'reject'))
+        out.append((tt, (x, item, 'many'), 'reject'))
+        out.append((tt, {'ticketer': x, 'item': item, 'amount': amt} if item is None or isinstance(item, (int, str)) else 7, 'reject'))
+        if isinstance(item, tuple) and len(item) > 1 and tt[2][0] == 'p':
+            out.append((tt, (x,) + item + (amt,), 'reject'))           # the item's fields spread out: not what to_python_object shows
+    # ---- lambda: Michelson source text of the body
+    for code, src in zip(G.code_pool(), G.CODE_SOURCES):
+        lt = ('f', G.NOANN, nat, nat)
+        out.append((lt, src, ('f', code)))
+        out.append((lt, ' ' + src.replace(' ; ', ';') + '\n', None))
+    for bad in (5, None, b'{}', ['DUP'], ('{}',)):
+        out.append((('f', G.NOANN, nat, S('unit')), bad, 'reject'))
+    for odd in ('DUP', '', '{ DUP', '{ NOSUCHPRIM }', '{ DUP ; }', '{ DUUP }', '{ IF_SOME { DROP } { } }', 'Unit', '"a"', '{ PUSH nat }', '(Pair 1 2)', '{ dup }'):
+        out.append((('f', G.NOANN, nat, nat), odd, None))
     # ---- unit, never
     from pytezos.michelson.types.core import Unit
     out += [(S('unit'), None, ('U',)), (S('unit'), Unit, ('U',)), (S('unit'), 0, 'reject'), (S('unit'), 'Unit', 'reject'),
@@ -884,7 +949,7 @@ def leaf_stream(ctx):
     for t, obj, want, real, idx in plan:
         desc = {'type': G.ty_str(t), 'object': repr(obj)[:160]}
         ctx.case(desc, nontrivial=True)
-        leaf = next(x for x in G.subterms(t) if x[0] in 'sc' and not (x == ('s', G.NOANN, 'nat') and t[0] != 's'))
+        leaf = next(x for x in G.subterms(t) if x[0] in 'sckf' and not (x == ('s', G.NOANN, 'nat') and t[0] != 's'))
         ctx.count('leaf-forms', G.prim(leaf) + ':' + type(obj).__name__ + ':' + ('reject' if want == 'reject' else 'meaning' if want else 'model-only'))
         back = real.of_py(obj)
         got = show(back, G.val_toks)
@@ -978,8 +1043,10 @@ def rand_bytes_for_unpack(rng):
 def bytes_leaves(t, v):
     if t[0] == 's':
         return [v[1]] if t[2] == 'bytes' else []
-    if t[0] == 'c' or v[0] in 'NB':
+    if t[0] in 'cf' or v[0] in 'NB':
         return []
+    if t[0] == 'k':
+        return bytes_leaves(t[2], v[2])
     if t[0] == 'p':
         return bytes_leaves(t[2], v[1]) + bytes_leaves(t[3], v[2])
     if t[0] == 'o':
